@@ -51,7 +51,7 @@ fn name_spans(rtype: u16, raw: &[u8]) -> Result<Vec<(usize, usize)>, String> {
                 }
                 spans.push((start, p));
             }
-            F::U8 | F::Proto3 => {
+            F::U8 | F::Proto3 | F::N3Alg | F::N3Flags => {
                 need(p, 1)?;
                 p += 1
             }
